@@ -101,6 +101,14 @@ def make_sampler(kind, region=None, psi_anchor=None, infband=None):
             out[..., 1] = np.clip(np.round(127.5 + 127 * v[..., 1]), 0, 255)
             out[..., 2] = np.clip(np.round(127.5 + 127 * v[..., 2]), 0, 255)
             return out
+        if kind == "mixed":
+            # integer counts inside the survey's coverage, float with NaN at its edge: the dtype of what the sampler returns
+            # differs from tile to tile (decided from the request as a whole, robustly to rounding)
+            cnt = np.round(100 * val) + 300          # positive counts (for integer tiles zero means undefined, negative values are outside the update rule)
+            pick = int(np.floor(3 * float(v[..., 0].mean()) + 5 * float(v[..., 1].mean()) + 7 * float(v[..., 2].mean()) + 0.123)) % 2
+            if pick == 0:
+                return cnt.astype(np.int16)
+            return np.where(np.asarray(lat) < -1.25, np.nan, cnt).astype(np.float32)
         val = val.astype(np.float64)
         if infband is not None:
             # a band of longitudes where the map is infinite (log of zero flux, 1/x ...): defined values, not missing ones
@@ -112,6 +120,19 @@ def make_sampler(kind, region=None, psi_anchor=None, infband=None):
             val = np.where(inside, val, np.nan)
         return val
     return f
+
+
+def memoising(f):
+    """A sampler that keeps what it computed (a cache in front of an expensive map lookup): asked again for the same points
+    it hands out the very same array object."""
+    cache = {}
+
+    def g(lon, lat):
+        key = (lon.shape, float(lon.flat[0]), float(lat.flat[0]), float(lon.flat[-1]), float(lat.flat[-1]), float(lon.flat[lon.size // 3]))
+        if key not in cache:
+            cache[key] = f(lon, lat)
+        return cache[key]
+    return g
 
 
 def read_tile(path, fmt):
@@ -177,11 +198,19 @@ def judge_dir(ctx, label, key, d, fmt, depth, cs, psi, kind, regions, mode, acce
             defined = np.ones((256, 256), bool)
         else:
             lon_psi, lat_psi = lattice.vec_to_lonlat(g)
-            exp_psi = make_sampler("scalar", infband=infband)(lon_psi, lat_psi) if infband is not None else scalar_of_vec(g)
-            exp_real = make_sampler("scalar", infband=infband)(rl, rt)
+            if kind == "mixed":
+                exp_psi = make_sampler("mixed")(lon_psi, lat_psi).astype(float)
+                got_real = make_sampler("mixed")(rl, rt)
+                exp_real = got_real.astype(float)
+                mixed_dtype = got_real.dtype
+            else:
+                exp_psi = make_sampler("scalar", infband=infband)(lon_psi, lat_psi) if infband is not None else scalar_of_vec(g)
+                exp_real = make_sampler("scalar", infband=infband)(rl, rt)
             if infband is not None and np.isinf(exp_real).all():
                 ctx.add_note("leaf_tiles_entirely_infinite")
-            if regions is None:
+            if kind == "mixed":
+                defined = ~np.isnan(exp_real)
+            elif regions is None:
                 defined = np.ones((256, 256), bool)
             else:
                 use = regions if mode == "update" else regions[-1:]
@@ -197,7 +226,10 @@ def judge_dir(ctx, label, key, d, fmt, depth, cs, psi, kind, regions, mode, acce
         if not defined.any():
             ctx.violation(key + ":all-undefined-stored", "%s: a file exists for tile %s whose pixels are all undefined" % (label, pos), dict(rep, pos=pos))
             continue
-        data = read_tile(files[pos], fmt).astype(float)
+        raw = read_tile(files[pos], fmt)
+        if kind == "mixed" and np.dtype(raw.dtype).newbyteorder("=") != np.dtype(mixed_dtype):
+            ctx.violation(key + ":dtype", "%s: tile %s is stored as %s, the sampler returned %s for it" % (label, pos, raw.dtype, mixed_dtype), dict(rep, pos=pos))
+        data = raw.astype(float)
         if kind == "rgb" and data.shape[-1] == 4:
             data = data[..., :3]
         if bottom_up:
@@ -224,7 +256,7 @@ def judge_dir(ctx, label, key, d, fmt, depth, cs, psi, kind, regions, mode, acce
             d_real = np.where(np.isnan(d_real), np.inf, d_real)
             err_real = float(d_real[defined].max())
             err_psi = float(d_psi[defined].max())
-            bad = err_real > tol_store or err_psi > 1e-9 + tol_store
+            bad = err_real > tol_store or err_psi > (1.0 if kind == "mixed" else 1e-9 + tol_store)
         worst = max(worst, float(err_psi))
         if bad:
             with np.errstate(invalid="ignore"):
@@ -292,6 +324,16 @@ def run(ctx):
              dict(entry="toast_base", cs="planetary", depth=2, fmt="npy", kind="scalar", mode="update", regions=None, accept=sparse2, par=1),
              dict(entry="toast_base", cs="planetary", depth=1, fmt="fits", kind="scalar", mode="update", regions=None, accept={(1, 1, 0), (1, 0, 1)}, par=1, is_planet=True),
              dict(entry="toast_base", cs="astronomical", depth=2, fmt="npy", kind="scalar", mode="update", regions=[(0, B), (B, 7.0)], accept=sparse, par=1),
+             # one PyramidIO object used again after its output tree (or one row directory) was removed
+             dict(entry="sample_layer", cs="astronomical", depth=1, fmt="npy", kind="scalar", mode="clobber", regions=None, accept=None, par=1, reuse_pio="tree"),
+             dict(entry="sample_layer", cs="planetary", depth=2, fmt="fits", kind="scalar", mode="clobber", regions=None, accept=None, par="sim2", reuse_pio="row"),
+             # a sampler whose dtype differs from tile to tile
+             dict(entry="sample_layer", cs="astronomical", depth=2, fmt="fits", kind="mixed", mode="clobber", regions=None, accept=None, par=1),
+             dict(entry="filtered", cs="planetary", depth=2, fmt="fits", kind="mixed", mode="update", regions=None, accept=None, par="sim2"),
+             # samplers that memoise: the arrays they return stay theirs (second pyramid from the same sampler objects)
+             dict(entry="sample_layer", cs="astronomical", depth=1, fmt="fits", kind="scalar", mode="clobber", regions=None, accept=None, par=1, memo=True),
+             dict(entry="filtered", cs="planetary", depth=1, fmt="fits", kind="scalar", mode="update", regions=[(0, B), (B, 7.0)], accept=None, par=1, memo=True),
+             dict(entry="sample_layer", cs="planetary", depth=1, fmt="png", kind="rgb", mode="clobber", regions=None, accept=None, par=1, memo=True),
              # a map that is infinite over whole tiles: infinities are values of the sampler, the tiles exist and hold them
              dict(entry="sample_layer", cs="astronomical", depth=2, fmt="npy", kind="scalar", mode="clobber", regions=None, accept=None, par=1, infband=(0.7, 2.9)),
              dict(entry="sample_layer", cs="planetary", depth=2, fmt="fits", kind="scalar", mode="clobber", regions=None, accept=None, par="sim2", infband=(3.3, 5.6)),
@@ -323,10 +365,23 @@ def run(ctx):
         passes = rn["regions"] if rn["regions"] is not None else [None]
         acc = rn["accept"]
 
-        def body(rn=rn, d=d, cs=cs, passes=passes, acc=acc, parallel=1):
+        memo_box = {}
+
+        def body(rn=rn, d=d, cs=cs, passes=passes, acc=acc, parallel=1, memo_box=memo_box):
             pio = pyramid.PyramidIO(d, default_format=rn.get("piofmt", rn["fmt"]))
+            if rn.get("reuse_pio"):
+                # one PyramidIO object outlives its output tree: sample, remove the tree (rn["reuse_pio"] = "tree") or one row
+                # directory ("row"), sample again through the same object
+                import shutil
+                toast.sample_layer(pio, make_sampler(rn["kind"]), rn["depth"], coordsys=cs, parallel=1)
+                if rn["reuse_pio"] == "tree":
+                    shutil.rmtree(d)
+                else:
+                    shutil.rmtree(os.path.join(d, str(rn["depth"]), "0"))
             for reg in passes:
                 sampler = make_sampler(rn["kind"], reg, infband=rn.get("infband"))
+                if rn.get("memo"):
+                    sampler = memo_box.setdefault(repr(reg), memoising(sampler))
                 if rn["entry"] == "sample_layer" and "piofmt" in rn:
                     # the documented format= override: tiles in rn["fmt"] although the pyramid's default format differs
                     toast.sample_layer(pio, sampler, rn["depth"], coordsys=cs, format=rn["fmt"], parallel=parallel)
@@ -363,6 +418,19 @@ def run(ctx):
                       tlc_leafsets.get((rn["depth"], frozenset(acc))) if acc is not None and rn["regions"] is None else None, infband=rn.get("infband"))
         worst = max(worst, w)
         ctx.trace_ok()
+        if rn.get("memo"):
+            # the same sampler objects serve a second pyramid: what they hand out the second time are the arrays they handed
+            # out the first time, which the library was only lent
+            d2 = ctx.mkdtemp("c06b")
+            try:
+                with simrun.quiet():
+                    body(d=d2)
+            except Exception as e:  # noqa
+                ctx.violation(key + ":raises", "%s, second pyramid from the same sampler objects: raised %r" % (label, e), {"run": label})
+                continue
+            judge_dir(ctx, label + " (second pyramid from the same memoising sampler)", key, d2, rn["fmt"], rn["depth"], cs, psi, rn["kind"], rn["regions"], rn["mode"], acc, None,
+                      infband=rn.get("infband"))
+            ctx.trace_ok()
     ctx.note("worst_deviation_from_psi", worst)
     ctx.sample({"real_run": runs[5], "note": "every tile read back, 65536 pixels each"})
     ctx.assume("psi is validated against the real tile corners (C04) and pixel grids (C05); png tiles carry 8-bit RGB so the psi comparison allows one level")
